@@ -252,6 +252,46 @@ func c14Impl(in []int64) []int64 {
 	}
 	switch c.f {
 	case fDiff:
+		// With dst nil and no 3 in s2 the call is made on float64 slices in which every 3 of s1 is a NaN: a NaN equals
+		// nothing, so it is kept, exactly as the model keeps a 3 that s2 does not contain (an implementation that looks
+		// elements up in a map loses NaN keys).
+		if len(c.sl) >= 3 && c.sl[0][0] == 0 && len(c.slice(1))%2 == 1 {
+			s1, s2 := c.slice(1), c.slice(2)
+			ok := true
+			for _, v := range s2 {
+				ok = ok && v != 3
+			}
+			if ok {
+				f1, f2 := make([]float64, len(s1)), make([]float64, len(s2))
+				for j, v := range s1 {
+					f1[j] = float64(v)
+					if v == 3 {
+						f1[j] = math.NaN()
+					}
+				}
+				for j, v := range s2 {
+					f2[j] = float64(v)
+				}
+				if s1 == nil {
+					f1 = nil
+				}
+				if s2 == nil {
+					f2 = nil
+				}
+				fr := slicez.Diff(nil, f1, f2)
+				var res []int
+				if fr != nil {
+					res = make([]int, len(fr))
+				}
+				for j, v := range fr {
+					res[j] = int(v)
+					if v != v {
+						res[j] = 3
+					}
+				}
+				return one(res)
+			}
+		}
 		return one(slicez.Diff(c.slice(0), c.slice(1), c.slice(2)))
 	case fDiffIP:
 		return one(slicez.DiffInPlaceFirst(c.slice(0), c.slice(1)))
@@ -770,6 +810,8 @@ func c14Gen(c *Ctx) {
 		s2 := c14Nil
 		if f == fDiff || f == fInter {
 			switch r.Intn(8) {
+			case 7: // a long second slice against a short first one (the side that gets indexed may depend on the sizes)
+				s2 = b.randWindow(t, 30+r.Intn(120), 3) // values 0..2: the 3s of the first slice (NaN in the float presentation) stay
 			case 0:
 				s2 = s1 // the same slice twice
 			case 1:
